@@ -23,9 +23,11 @@ def base_plan(cfgs, k, ident, final):
 
 def plans_for(tier, rng):
     cfgs = [{"admin": a, "blank": b, "hash": h} for a in (False, True) for b in (False, True) for h in (False, True)]
-    idents = ["leaf", "leaf2", "selfsigned"]
+    # RSA leaves of the test CA, a self-signed RSA certificate, and two Ed25519 leaves whose raw public key begins with
+    # 0xff / 0xfe: there "public key + 1" carries into the second byte (RSA keys begin with 0x30 and never carry)
+    idents = ["leaf", "leaf2", "selfsigned", "edff", "edfe"]
     finals = [{"kind": "honest"}, {"kind": "padded"}]
-    finals += [{"kind": "offset", "k": k} for k in (0, 2, 3, -1, 256, -256, 65536, 255, 257)]
+    finals += [{"kind": "offset", "k": k} for k in (0, 2, 3, -1, 256, -256, 65536, 255, 257, -255, -257, 511, 65535)]
     finals += [{"kind": "other_cert", "other": o} for o in ("leaf", "leaf2", "selfsigned")]
     finals += [{"kind": k} for k in ("wrong_key", "wrong_direction", "bad_seq", "bad_sig_version", "reflect", "plain_key", "plain_inc", "empty", "absent", "wrong_field", "ber_long")]
     finals += [{"kind": "bad_checksum", "i": i} for i in range(8)]
@@ -81,7 +83,7 @@ def plans_for(tier, rng):
     # families: every single-bit flip of the honest reply, every truncation of token and of the request
     nbytes = 310        # the honest TSRequest is 0x30 0x82 len ... about 300 bytes with a 2048-bit key
     for i in range(nbytes * 8):
-        p = base_plan(cfgs, k, idents[i % 2], {"kind": "bitflip", "i": i})
+        p = base_plan(cfgs, k, idents[:2][i % 2], {"kind": "bitflip", "i": i})
         p["id"] = "bit%d" % i
         plans.append(p); k += 1
     for n in range(0, 300, 1 if tier == "thorough" else 3):
